@@ -496,9 +496,11 @@ class Ops:
         if isinstance(a, ObjV) and isinstance(b, ObjV) and a.cls == b.cls \
                 and set(a.fields) == set(b.fields):
             return ObjV(a.cls, {k: self.ite(cond, a.fields[k], b.fields[k]) for k in a.fields})
-        if isinstance(a, SeqV) and isinstance(b, SeqV) and a.et is b.et:
-            if not (isinstance(a.off, int) and isinstance(b.off, int) and a.off == b.off):
-                raise Unsupported('merge of sequence views')
+        if isinstance(a, SeqV) and isinstance(b, SeqV) and a.et.sort == b.et.sort:
+            if a.fn is not None or b.fn is not None or not (isinstance(a.off, int) and isinstance(b.off, int) and a.off == b.off):
+                ca, cb = a.clone(), b.clone()
+                return SeqV(None, z3.If(cond, a.n, b.n), a.et,
+                            fn=lambda j, ca=ca, cb=cb, cond=cond: z3.If(cond, ca.sel(j), cb.sel(j)))
             return SeqV(z3.If(cond, a.arr, b.arr), z3.If(cond, a.n, b.n), a.et, a.off)
         if isinstance(a, SetV) and isinstance(b, SetV) and a.arr is not None and b.arr is not None:
             return SetV(arr=z3.If(cond, a.arr, b.arr), et=a.et)
